@@ -74,6 +74,13 @@ impl Check for C19 {
             let s = gen_scheme_push(&mut g);
             schemes.push(s);
         }
+        // the most ordinary differing pair there is: a client configured with its own scheme against a server that
+        // runs the built-in one — the pushed text is then byte-identical to the scheme the process-wide slot may
+        // already hold (when the built-in default was handed out before)
+        if client_scheme != "default" && g.chance(25) {
+            let at = (g.next() % schemes.len() as u64) as usize;
+            schemes[at] = anytls_rs::padding::DEFAULT_PADDING_SCHEME.to_string();
+        }
         json!({"net": net, "mode": mode, "default_touched": g.chance(60), "client_scheme": client_scheme, "server_schemes": schemes,
             "same_scheme": mode == "session" && g.chance(15), "garbage_push": g.chance(25), "sessions": g.range(2, 4),
             // session mode: the push is adopted while one writer is parked inside the transport and another one is
@@ -129,7 +136,7 @@ impl Check for C19 {
         out
     }
     fn rule(&self) -> &'static str {
-        "one case = {built-in default factory touched before or not} x client scheme (built-in default or a seeded scheme) x 1-3 successive server schemes x 2-4 sessions x optional unparsable push; mode session (45%): real client Session against a real server Session with a differing (or, 15%, identical) scheme on plaintext recording pipes — the server must push iff the md5 differs, the packets the client writes after the push must satisfy the C05 acceptor under the pushed scheme; in half of these the push is adopted while one writer is parked inside the transport (write gate) and a second one is queued on the writer lock, whose packet must already follow the pushed scheme; in 30% the pushed scheme was already installed process-wide by an earlier session's push and this session, which announced the old one, must still switch; mode client (55%): real Client against a scripted TLS server that records the md5 every new session announces, pushes its current scheme when it differs, switches schemes between sessions and may push garbage — later sessions must announce the pushed scheme, the pushed-to session must hold it, an unparsable push must change nothing (also when it is the only push: the server then holds the client's own scheme and later sessions must still announce it); every case is non-trivial; distinct = distinct (plan hash, poll-order fingerprint)"
+        "one case = {built-in default factory touched before or not} x client scheme (built-in default or a seeded scheme) x 1-3 successive server schemes (seeded, or the built-in default text itself when the client is configured with its own scheme) x 2-4 sessions x optional unparsable push; mode session (45%): real client Session against a real server Session with a differing (or, 15%, identical) scheme on plaintext recording pipes — the server must push iff the md5 differs, the packets the client writes after the push must satisfy the C05 acceptor under the pushed scheme; in half of these the push is adopted while one writer is parked inside the transport (write gate) and a second one is queued on the writer lock, whose packet must already follow the pushed scheme; in 30% the pushed scheme was already installed process-wide by an earlier session's push and this session, which announced the old one, must still switch; mode client (55%): real Client against a scripted TLS server that records the md5 every new session announces, pushes its current scheme when it differs, switches schemes between sessions and may push garbage — later sessions must announce the pushed scheme, the pushed-to session must hold it, an unparsable push must change nothing (also when it is the only push: the server then holds the client's own scheme and later sessions must still announce it); every case is non-trivial; distinct = distinct (plan hash, poll-order fingerprint)"
     }
     fn real_components(&self) -> Vec<&'static str> {
         vec!["Session::handle_frame (Settings on the server, UpdatePaddingScheme on the client)", "PaddingFactory::default / update_default (process-wide default)", "Client::create_new_session (which scheme new sessions announce and use)", "write_with_padding (session mode)"]
